@@ -64,6 +64,9 @@ class TextData(Data):
         if isinstance(values, np.ndarray) and values.dtype == object:
             values = values.astype(str)
 
+        if isinstance(values, np.ndarray) and values.dtype.kind == "S":
+            values = np.char.decode(values, "utf-8")
+
         if (not isinstance(values, (str, type(None), np.ndarray))) or (
             isinstance(values, np.ndarray) and values.dtype.kind not in ["U", "S"]
         ):
